@@ -155,12 +155,29 @@ func c13Order(user []*ref.Fun, closureCompiler bool) []*ref.Fun {
 	if !closureCompiler {
 		return user
 	}
-	rev := make([]*ref.Fun, len(user))
-	for i, f := range user {
-		rev[len(user)-1-i] = f
+	// ... and has further polymorphic overloads of the same names and arities
+	// in front, so that the same call resolves to another POSITION of the
+	// overload list than on the first engine kind
+	rev := append([]*ref.Fun(nil), c13Extras...)
+	for i := len(user) - 1; i >= 0; i-- {
+		rev = append(rev, user[i])
 	}
 	return rev
 }
+
+var c13Extras = func() []*ref.Fun {
+	k, v, a := ref.TVar("k"), ref.TVar("v"), ref.TVar("a")
+	konst := func(name string, ps []*ref.Ty, r *ref.Ty, out *ref.V) *ref.Fun {
+		return &ref.Fun{Name: name, Params: ps, Ret: r, User: name + "/extra", Impl: func(*ref.Evaluator, *ref.Ty, []ref.Arg) *ref.V { return out }}
+	}
+	return []*ref.Fun{
+		konst("ov", []*ref.Ty{ref.TMap(k, v)}, ref.TStr, ref.VStr("ov/map")),
+		konst("ov", []*ref.Ty{ref.TMaybe(a)}, ref.TStr, ref.VStr("ov/maybe")),
+		konst("wrap", []*ref.Ty{ref.TMap(k, v)}, ref.TList(ref.TNum), ref.VList(ref.TNum, ref.VNum(-1))),
+		konst("fst", []*ref.Ty{ref.TMap(k, v), a}, ref.TStr, ref.VStr("fst/map")),
+		konst("pair", []*ref.Ty{ref.TMap(k, v), ref.TMap(k, v)}, ref.TStr, ref.VStr("pair/map")),
+	}
+}()
 
 func newC13Engine(name string, closureCompiler bool, user []*ref.Fun) *c13Engine {
 	user = c13Order(user, closureCompiler)
@@ -275,6 +292,9 @@ func runC13(c *run.Ctx) {
 				ref.Call("string", ref.List(ref.Member(ref.Ident("pr"), "o"), ref.Member(ref.Ident("pr"), "o"), ref.Member(ref.Ident("pr"), "o"))),
 				ref.Obj([]string{"a", "b"}, []*ref.E{ref.Member(ref.Ident("pr"), "o"), ref.List(ref.Ident("pr"), ref.Ident("pr"))}),
 				ref.CallF(ref.FInfix, "+", ref.Call("get", ref.Member(ref.Ident("pr"), "o"), ref.Ident("n")), ref.Call("len", ref.List(ref.Member(ref.Ident("pr"), "o"), ref.Member(ref.Ident("pr"), "o")))),
+				ref.CallF(ref.FInfix, "+", ref.Call("ov", ref.Ident("m")), ref.Call("string", ref.Call("wrap", ref.Ident("n")))),
+				ref.Call("string", ref.List(ref.Call("fst", ref.Ident("xs"), ref.Ident("n")), ref.Call("fst", ref.Ident("xs"), ref.Ident("k")))),
+				ref.Call("string", ref.Call("pair", ref.Ident("s"), ref.Ident("s"))),
 			}
 			for _, e := range fixed {
 				exprs = append(exprs, e)
